@@ -427,4 +427,189 @@ def relations(rng, tier, rpt):
                             "input": ser_s, "impl_output": again, "model_output": ser_s, "no_failing_input": False})
     rpt.extra["slip32_checks"] = ns
     rpt.extra["impl_roundtrips"] = n
-    return bad[:8]
+    extra = _entry_point_text_damage(rng, tier, rpt) + _parse_history(rng, tier, rpt)
+    return bad[:8] + extra[:8]
+
+
+B58 = "123456789ABCDEFGHJKLMNPQRSTUVWXYZabcdefghijkmnopqrstuvwxyz"
+
+
+def b58check_ref(s):
+    """Base58Check text layer written from the definition (hashlib only): "Value" when a character is outside the alphabet, "Checksum" when
+    the last four bytes are not the double SHA-256 of the rest, otherwise the payload bytes"""
+    import hashlib
+    v = 0
+    for ch in s:
+        k = B58.find(ch) if len(ch) == 1 else -1
+        if k < 0:
+            return "Value"
+        v = v * 58 + k
+    raw = bytes(len(s) - len(s.lstrip("1"))) + (v.to_bytes((v.bit_length() + 7) // 8, "big") if v else b"")
+    if len(raw) < 4 or hashlib.sha256(hashlib.sha256(raw[:-4]).digest()).digest()[:4] != raw[-4:]:
+        return "Checksum"
+    return raw[:-4]
+
+
+def _parse_entry_points(rng, tier):
+    """every documented entry point that parses an extended key string, each with a private object of its own to take valid strings from:
+    -> [(name, parse(str) -> object with IsPublicOnly/PublicKey().ToExtended()/PrivateKey().ToExtended(), to_public(obj), source object)].
+    Core classes (the four SLIP-0010 curves, BIP32-Ed25519, the Cardano ones), the bare deserialiser, and the BIP-44 family wrappers over
+    fixed and randomly drawn coins of every family (account-level keys)."""
+    import bip_utils as B
+    from bip_utils.bip.bip32.bip32_key_ser import Bip32KeyDeserializer
+    out = []
+    seed = bytes(rng.randrange(256) for _ in range(32))
+    cores = [B.Bip32Slip10Secp256k1, B.Bip32Slip10Nist256p1, B.Bip32Slip10Ed25519, B.Bip32Slip10Ed25519Blake2b, B.Bip32KholawEd25519,
+             B.CardanoIcarusBip32, B.CardanoByronLegacyBip32]
+    for cls in cores:
+        src = cls.FromSeed(seed).ChildKey(2**31 + rng.randrange(100)).ChildKey(2**31 + rng.getrandbits(20))
+        out.append((cls.__name__ + ".FromExtendedKey", cls.FromExtendedKey, lambda o: o.ConvertToPublic(), src))
+        kv = rng.choice(key_net_versions())
+        kvo = Bip32KeyNetVersions(*kv)
+        if cls in (B.Bip32Slip10Secp256k1, B.Bip32Slip10Nist256p1):
+            src2 = cls.FromSeed(seed, kvo).ChildKey(rand_index(rng))
+            out.append(("%s.FromExtendedKey(versions %s)" % (cls.__name__, kv[0].hex()), (lambda s, c=cls, k=kvo: c.FromExtendedKey(s, k)), lambda o: o.ConvertToPublic(), src2))
+
+    class _Deser:      # the bare deserialiser seen through the same three observables
+        def __init__(self, s):
+            self.s, self.d = s, Bip32KeyDeserializer.DeserializeKey(s)
+
+        def IsPublicOnly(self):
+            return self.d.IsPublic()
+    out.append(("Bip32KeyDeserializer.DeserializeKey", _Deser, None, B.Bip32Slip10Secp256k1.FromSeed(seed).ChildKey(7)))
+    fams = [(B.Bip44, B.Bip44Coins), (B.Bip49, B.Bip49Coins), (B.Bip84, B.Bip84Coins), (B.Bip86, B.Bip86Coins), (B.Cip1852, B.Cip1852Coins)]
+    fixed = {B.Bip44: [B.Bip44Coins.BITCOIN, B.Bip44Coins.DOGECOIN, B.Bip44Coins.SOLANA, B.Bip44Coins.NEO, B.Bip44Coins.CARDANO_BYRON_ICARUS],
+             B.Bip49: [B.Bip49Coins.LITECOIN], B.Bip84: [B.Bip84Coins.BITCOIN], B.Bip86: [B.Bip86Coins.BITCOIN_TESTNET], B.Cip1852: [B.Cip1852Coins.CARDANO_ICARUS]}
+    for fam, enum in fams:
+        coins = list(fixed[fam])
+        members = list(enum)
+        coins += [members[rng.randrange(len(members))] for _ in range(2 if tier == "quick" else 12)]
+        for coin in dict.fromkeys(coins):
+            acc = fam.FromSeed(seed, coin).Purpose().Coin().Account(rng.randrange(4))
+            out.append(("%s.FromExtendedKey(%s)" % (fam.__name__, coin.name), (lambda s, f=fam, c=coin: f.FromExtendedKey(s, c)),
+                        lambda w: w.Bip32Object().ConvertToPublic(), acc))
+    return out
+
+
+def _text_damages(rng, s):
+    """strings differing from `s` at the text layer only: characters outside the Base58 alphabet (every Unicode blank, invisible
+    characters, ASCII look-alikes, non-ASCII letters and digits) put before, after, around and inside the string or over one of its
+    characters; alphabet characters substituted, swapped in case, dropped, added (checksum).  -> [(description, string)]"""
+    blanks = [chr(i) for i in range(0x3001) if chr(i).isspace()]
+    foreign = ["​", "﻿", "\x00", "\x7f", "0", "O", "I", "l", "+", "/", "=", "-", "_", ".", ",", ":", "\"", "é", "１", "٣", "ａ", "\U0001d7d9"]
+    out = []
+    for ch in ["\n", "\r\n", " ", "\t", " ", " "] + [rng.choice(blanks) for _ in range(3)] + [rng.choice(foreign) for _ in range(4)]:
+        where = rng.randrange(4)
+        out.append(("%r after the string" % ch, s + ch))
+        out.append(("%r before the string" % ch, ch + s))
+        if where == 0:
+            out.append(("%r around the string" % ch, ch + s + ch))
+        elif where == 1:
+            j = rng.randrange(1, len(s))
+            out.append(("%r inserted at %d" % (ch, j), s[:j] + ch + s[j:]))
+        elif where == 2:
+            j = rng.randrange(len(s))
+            out.append(("%r over character %d" % (ch, j), s[:j] + ch + s[j + 1:]))
+        else:
+            out.append(("%r twice after the string" % ch, s + ch + ch))
+    for _ in range(3):
+        j = rng.randrange(len(s))
+        out.append(("alphabet character substituted at %d" % j, s[:j] + rng.choice(B58.replace(s[j], "")) + s[j + 1:]))
+    j = rng.choice([k for k, ch in enumerate(s) if ch.isalpha()])
+    out.append(("case swapped at %d" % j, s[:j] + s[j].swapcase() + s[j + 1:]))
+    out += [("last character dropped", s[:-1]), ("first character dropped", s[1:]), ("'1' put before", "1" + s), ("character appended", s + rng.choice(B58)),
+            ("upper-cased", s.upper()), ("two neighbours swapped", s[:5] + s[6] + s[5] + s[7:] if s[5] != s[6] else s[:-1])]
+    return [(d, t) for d, t in out if t != s]
+
+
+def _entry_point_text_damage(rng, tier, rpt):
+    """rejection clause at EVERY parsing entry point: a string damaged at the text layer is refused with the Base58 value error (a character
+    outside the alphabet) or the Base58 checksum error — by the core classes, the bare deserialiser and every BIP-44 family wrapper alike;
+    which of the two is decided by an independent Base58Check reference (hashlib).  The undamaged string is accepted and re-serialises as
+    itself (canonical: no other spelling of a key is accepted)."""
+    from bip_utils import Base58ChecksumError
+    bad = []
+    n = 0
+
+    def rep(what, inp, got, want):
+        bad.append({"property": "C05", "entry_point": what, "request_lines": [], "relation": what, "input": inp,
+                    "impl_output": got, "model_output": want, "no_failing_input": False})
+    for name, parse, _conv, src in _parse_entry_points(rng, tier):
+        nbad = 0
+        for is_pub, s in ((False, src.PrivateKey().ToExtended()), (True, src.PublicKey().ToExtended())):
+            o = parse(s)
+            if o.IsPublicOnly() != is_pub or (hasattr(o, "PublicKey") and (o.PublicKey().ToExtended() if is_pub else o.PrivateKey().ToExtended()) != s):
+                rep("%s: the canonical string is not parsed back to the key it came from" % name, s, "differs", s)
+            for what, t in _text_damages(rng, s):
+                want = b58check_ref(t)
+                if not isinstance(want, str):
+                    continue          # checksum still valid (2^-32): not a text-layer damage
+                n += 1
+                try:
+                    r = parse(t)
+                    got = "accepted (%s)" % ("public-only" if r.IsPublicOnly() else "private")
+                except Exception as ex:  # noqa
+                    got = exc_kind_(ex)
+                if got != want and nbad < 2:
+                    nbad += 1
+                    rep("%s: an extended %s key string damaged at the text layer (%s) is not refused with the Base58 %s error" % (
+                        name, "public" if is_pub else "private", what, "value" if want == "Value" else "checksum"), repr(t), got, "err " + want)
+    rpt.extra["entry_point_text_damage_checks"] = n
+    return bad
+
+
+def exc_kind_(ex):
+    from harness.canon import exc_kind
+    return exc_kind(ex)
+
+
+def _parse_history(rng, tier, rpt):
+    """parsing is a function of the string: whatever was done before with objects parsed from the same (or another) string — converted to
+    public-only, used for derivation, parsed again in between — a later parse of an extended private key gives an object WITH the private
+    key, whose fields and both re-serialisations are those of the string, and a parse of the extended public key gives the public-only one.
+    Random histories over the strings of one key at every parsing entry point (core classes with default and explicit version objects,
+    BIP-44 family wrappers)."""
+    bad = []
+    n = 0
+
+    def rep(what, inp, got, want):
+        bad.append({"property": "C05", "entry_point": what, "request_lines": [], "relation": what, "input": inp,
+                    "impl_output": got, "model_output": want, "no_failing_input": False})
+
+    def view(o):
+        w = o.Bip32Object() if hasattr(o, "Bip32Object") else o
+        return (w.IsPublicOnly(), w.PublicKey().ToExtended(), None if w.IsPublicOnly() else w.PrivateKey().ToExtended(),
+                int(w.Depth()), int(w.Index()), w.ChainCode().ToBytes().hex(), w.ParentFingerPrint().ToBytes().hex())
+    for name, parse, conv, src in _parse_entry_points(rng, tier):
+        if conv is None:
+            continue
+        xprv, xpub = src.PrivateKey().ToExtended(), src.PublicKey().ToExtended()
+        sv = view(src)
+        truth = {xprv: sv, xpub: (True, xpub, None) + sv[3:]}
+        live = []
+        hist = []
+        steps = [rng.choice(["xprv", "xprv", "xpub", "convert", "child"]) for _ in range(8 if tier == "quick" else 20)]
+        for st in ["xprv", "convert", "xprv"] + steps + ["xprv"]:
+            hist.append(st)
+            if st in ("xprv", "xpub"):
+                s = xprv if st == "xprv" else xpub
+                n += 1
+                o = parse(s)
+                got = view(o)
+                if got != truth[s]:
+                    rep("%s: a parsed extended %s key is not the key of the string after the history %s on objects parsed earlier from the same strings" % (
+                        name, "private" if st == "xprv" else "public", "/".join(hist[:-1]) or "-"), s, str(got), str(truth[s]))
+                    break
+                live.append(o)
+            elif live:
+                o = live[rng.randrange(len(live))]
+                if st == "convert":
+                    conv(o)
+                else:
+                    w = o.Bip32Object() if hasattr(o, "Bip32Object") else o
+                    try:
+                        w.ChildKey(rand_index(rng, None if w.IsPublicOnly() else True))
+                    except Exception:  # noqa  (hardened from public-only, non-hardened on ed25519 …: refusals are not this relation's matter)
+                        pass
+    rpt.extra["parse_history_checks"] = n
+    return bad
